@@ -6,4 +6,4 @@ def main (args : List String) : IO UInt32 := do
   | ["lb"] => Driver.Lb.main; return 0
   | ["lbspec", ops, impl] => Driver.LbSpec.main ops impl; return 0
   | ["pollh", ops, impl] => Driver.Pollh.main ops impl; return 0
-  | _ => IO.eprintln "usage: npdriver lb | lbspec <ops> <impl>"; return 2
+  | _ => IO.eprintln "usage: npdriver lb | lbspec <ops> <impl> | pollh <ops> <impl>"; return 2
